@@ -8,6 +8,8 @@ import (
 	"fmt"
 	"go/token"
 	"go/types"
+	"math"
+	"math/big"
 	"regexp"
 	"strconv"
 	"strings"
@@ -984,5 +986,73 @@ func (r *run) nameOf(p *value) string {
 func (r *run) traceEvent(e string) {
 	if r.tracing {
 		r.trace = append(r.trace, e)
+	}
+}
+
+// ---------------------------------------------------------------- reals (C17 backoff)
+
+func init() {
+	apiIntrinsics["vNondetF64"] = func(fr *frame, args []value) value {
+		name := concreteString(args[0], "nondet name")
+		return &fsym{cls: fFinite, t: fr.r.fresh(name, "real", realSort)}
+	}
+	// vLinkReal(x, lo, hi): x (a symbolic int64) lies in [lo,hi] and so does its real twin
+	apiIntrinsics["vLinkReal"] = func(fr *frame, args []value) value {
+		x := args[0].(*Term)
+		if x.IsConst() {
+			return nil
+		}
+		lo, hi := args[1].(*Term), args[2].(*Term)
+		tw := fr.r.twin(x)
+		fr.r.assume(mkAnd(bvCmp("bvsge", x, lo), bvCmp("bvsle", x, hi)))
+		fr.r.assume(mkAnd(realCmp(">=", tw, mkReal(new(big.Rat).SetInt64(lo.sval()))), realCmp("<=", tw, mkReal(new(big.Rat).SetInt64(hi.sval())))))
+		zero := mkReal(new(big.Rat))
+		fr.r.assume(mkEq(mkEq(x, mkBV(64, 0)), mkEq(tw, zero)))
+		return nil
+	}
+	// vRealOf(x): the exact real value of an int64 (its twin when symbolic)
+	apiIntrinsics["vRealOf"] = func(fr *frame, args []value) value {
+		x := args[0].(*Term)
+		if x.IsConst() {
+			return &fsym{cls: fFinite, t: mkReal(new(big.Rat).SetInt64(x.sval()))}
+		}
+		return &fsym{cls: fFinite, t: fr.r.twin(x)}
+	}
+	exact := func(op string) externalFn {
+		return func(fr *frame, args []value) value {
+			a, b := toFsym(args[0]), toFsym(args[1])
+			if a.cls != fFinite || b.cls != fFinite {
+				panic(engineError{"exact real arithmetic on non-finite value"})
+			}
+			return &fsym{cls: fFinite, t: realBin(op, a.t, b.t)}
+		}
+	}
+	apiIntrinsics["vRAdd"] = exact("+")
+	apiIntrinsics["vRSub"] = exact("-")
+	apiIntrinsics["vRMul"] = exact("*")
+	apiIntrinsics["vRLe"] = func(fr *frame, args []value) value {
+		a, b := toFsym(args[0]), toFsym(args[1])
+		if a.cls != fFinite || b.cls != fFinite {
+			return tFalse
+		}
+		return realCmp("<=", a.t, b.t)
+	}
+	apiIntrinsics["vIsNaN"] = func(fr *frame, args []value) value { return mkBool(toFsym(args[0]).cls == fNaN) }
+	apiIntrinsics["vIsInf"] = func(fr *frame, args []value) value {
+		c := toFsym(args[0]).cls
+		return mkBool(c == fPosInf || c == fNegInf)
+	}
+	intrinsics["math.Inf"] = func(fr *frame, args []value) value {
+		if args[0].(*Term).sval() >= 0 {
+			return fval(math.Inf(1))
+		}
+		return fval(math.Inf(-1))
+	}
+	intrinsics["math.NaN"] = func(fr *frame, args []value) value { return fval(math.NaN()) }
+	intrinsics["math.IsNaN"] = func(fr *frame, args []value) value { return mkBool(toFsym(args[0]).cls == fNaN) }
+	intrinsics["math.IsInf"] = func(fr *frame, args []value) value {
+		c := toFsym(args[0]).cls
+		sign := args[1].(*Term).sval()
+		return mkBool((sign >= 0 && c == fPosInf) || (sign <= 0 && c == fNegInf))
 	}
 }
